@@ -101,6 +101,11 @@ class H(explore.Harness):
                 """Stands in for AsyncServiceInfo(type, name): filled from the harness's zeroconf cache, then behaves like the real record."""
 
                 def __init__(self, type_, name):
+                    if name in getattr(h, "bad_names", ()):
+                        # (what the real class does for a record whose instance name is unusable: over-long, wrong type suffix)
+                        from zeroconf import BadTypeInNameException
+
+                        raise BadTypeInNameException(f"Bad type in service name: {name}")
                     self.type, self.name, self._src = type_, name, None
 
                 def load_from_cache(self, zc, now=None):
@@ -171,7 +176,7 @@ class H(explore.Harness):
             class _Cache:
                 def async_all_by_details(self_, name, type_, class_):
                     # PTR records of that type known at this instant (complete or not)
-                    return [_Rec(n) for n in sorted(set(h.zc_cache) | set(h.zc_incomplete)) if n.endswith(name)]
+                    return [_Rec(n) for n in sorted(set(h.zc_cache) | set(h.zc_incomplete) | set(getattr(h, "bad_names", ()))) if n.endswith(name)]
 
             class _ZC:
                 cache = _Cache()
@@ -199,6 +204,9 @@ class H(explore.Harness):
             self._orig_find = self._zmod.find_brower_for_hap_type
             self._zmod.find_brower_for_hap_type = lambda azc, hap: next(b for b in self.browsers.values() if hap in b.types)
             self._orig_isb = None
+            if p.get("bad_ptr"):
+                # the zeroconf cache also holds a PTR record whose name is unusable; it sorts in front of every accessory's record
+                self.bad_names = {f"AAA-unusable.{c.hap_type}" for via, c in self.ctrls.items() if via in self.browsers}
             if p.get("start_event"):
                 # another accessory is known to zeroconf by name only: resolving it at start-up takes a network round trip
                 for via, c in self.ctrls.items():
@@ -320,6 +328,8 @@ class H(explore.Harness):
                     if via != "ble":
                         ev.append(f"zc-add:{i}:{via}")
                         ev.append(f"zc-rm:{i}:{via}")
+        if self.p.get("disc_connect") and "ble" in self.ctrls and not getattr(self, "disc_connected", False) and IDS[0] in self.ctrls["ble"].discoveries:
+            ev.append("disc-connect")  # a connection is opened through the discovery (identify, pair-setup) and stays up: advertisements keep arriving
         if self.p.get("pairing_shutdown") and self.mode != "none" and not getattr(self, "pairing_shut", False):
             ev.append("shutdown-pairing")  # the pairing is shut down (it stays registered with the controller): advertisements keep arriving
         for k, w in enumerate(self.waiters):
@@ -371,6 +381,9 @@ class H(explore.Harness):
                             w["tie"] = True  # advertisement at the very instant of the timeout: either outcome is legitimate
                         else:
                             w["adv_at"] = now
+        elif k == "disc-connect":
+            self.disc_connected = True
+            self.ctrls["ble"].discoveries[IDS[0]].client = type("Client", (), {"is_connected": True, "address": "00:11:22:33:44:55"})()
         elif k == "shutdown-pairing":
             self.pairing_shut = True
             t = self.loop.create_task(self.target.pairings[IDS[0]].shutdown())
@@ -483,7 +496,7 @@ class H(explore.Harness):
         from vt import canon as _c
 
         generic = tuple(_c.canon(c, depth=2, skip=("_char_cache", "_loop", "_async_zeroconf_instance", "pairings", "aliases", "discoveries", "transports", "_tasks")) for c in self.ctrls.values())
-        model = (tuple(sorted(getattr(self, "started", {}).items())), tuple(t.done() for t in getattr(self, "start_tasks", [])), getattr(self, "pairing_shut", False), tuple(sorted(self.may_find)), tuple(sorted((k, v % 3) for k, v in self.nadv.items())), tuple(sorted((k, tuple(sorted(v.items()))) for k, v in self.last_adv.items())), tuple(sorted(self.zc_cache)),
+        model = (tuple(sorted(getattr(self, "started", {}).items())), tuple(t.done() for t in getattr(self, "start_tasks", [])), getattr(self, "pairing_shut", False), getattr(self, "disc_connected", False), tuple(sorted(self.may_find)), tuple(sorted((k, v % 3) for k, v in self.nadv.items())), tuple(sorted((k, tuple(sorted(v.items()))) for k, v in self.last_adv.items())), tuple(sorted(self.zc_cache)),
                  tuple(sorted((n, round(d[0] - self.loop.time(), 6)) for n, d in self.model_resolve.items())))
         conns = tuple((pid, getattr(getattr(pr, "connection", None), "_reconnect_future", None) is not None and pr.connection._reconnect_future.done(), getattr(getattr(pr, "connection", None), "closing", None))
                       for c in self.ctrls.values() for pid, pr in sorted(c.pairings.items()))
@@ -725,6 +738,7 @@ def run(ctx):
         dict(kind="ip", pairing="none", waiters=1, ids=1, P=0, variants=True),
         dict(kind="coap", pairing="cached", waiters=1, ids=1, P=0, variants=True),
         dict(kind="ble", pairing="none", waiters=1, ids=1, P=0, variants=True),
+        dict(kind="ble", pairing="none", waiters=1, ids=1, P=0, variants=True, disc_connect=True),
         # a pairing that is shut down while advertisements keep arriving (with and without cached state, every transport)
         dict(kind="ble", pairing="nocache", waiters=1, ids=1, P=0, pairing_shutdown=True),
         dict(kind="ble", pairing="cached", waiters=1, ids=1, P=0, pairing_shutdown=True),
@@ -735,6 +749,7 @@ def run(ctx):
         dict(kind="coap", pairing="none", waiters=1, ids=1, P=0, browser=True, timeouts=(1.0,)),
         # controller start-up as an event: records already in the cache, records announced while start-up resolves another one over the network
         dict(kind="ip", pairing="none", waiters=1, ids=1, P=0, browser=True, start_event=True, timeouts=(20.0,)),
+        dict(kind="coap", pairing="none", waiters=1, ids=1, P=0, browser=True, start_event=True, bad_ptr=True, timeouts=(20.0,)),
     ]
     if not quick:
         configs += [dict(kind="ip", pairing="cached", waiters=2, ids=1, P=1, browser=True, variants=True, timeouts=(0.75, 5.0)), dict(kind="agg", pairing="none", waiters=1, ids=1, P=0, variants=True),
